@@ -55,6 +55,7 @@ class TlcResult:
         self.out = ""
         self.wall = 0.0
         self.coverage = {}
+        self.errhead = []      # first lines of each TLC error message
 
 
 _REPLAY = re.compile(r'^<<"REPLAY", "(.*)">>$')
@@ -94,8 +95,14 @@ def run_tlc(module, cfg=None, workers=4, timeout=600, env=None, simulate=None, x
     p = subprocess.Popen(cmd, cwd=cwd, env=e, stdout=subprocess.PIPE, stderr=subprocess.STDOUT,
                          text=True, errors="replace")
     keep = []
+    grab = 0
     for line in p.stdout:
         line = line.rstrip("\n")
+        if line.startswith("Error:") or "exception was" in line:
+            grab = 4
+        if grab > 0 and len(res.errhead) < 24:
+            res.errhead.append(line[:300])
+            grab -= 1
         if collect_replay:
             m = _REPLAY.match(line)
             if m:
@@ -128,7 +135,7 @@ def run_tlc(module, cfg=None, workers=4, timeout=600, env=None, simulate=None, x
 def tlc_ok(res, what):
     """Raises ToolError if the run failed for a reason other than a property verdict."""
     if res.error and not res.violated:
-        log(res.out[-3000:])
+        log("\n".join(res.errhead))
         raise ToolError("TLC failed on %s: %s" % (what, res.error))
 
 
@@ -152,7 +159,7 @@ def validate_trace(module, cfg, trace_path, timeout=600, env=None, xmx="4g", tag
         # evaluation errors in a trace spec are tool errors unless they come with UNMATCHED
         if "Postcondition" in res.out or "POSTCONDITION" in res.out:
             return False, None, res
-        log(res.out[-3000:])
+        log("\n".join(res.errhead))
         raise ToolError("trace validation of %s failed to run: %s" % (trace_path, res.error or res.violated))
     return True, None, res
 
@@ -291,3 +298,45 @@ def write_lines(path, lines):
         for l in lines:
             f.write(l)
             f.write("\n")
+
+
+def split_trace(path, nchunks, is_boundary):
+    """Splits an ndjson trace into <= nchunks files at unit boundaries (lines for which
+    is_boundary(line) holds start a new unit). Returns [(chunk_path, first_line_number)]."""
+    lines = open(path).read().splitlines()
+    starts = [i for i, l in enumerate(lines) if is_boundary(l)]
+    if not starts or starts[0] != 0:
+        starts = [0] + starts
+    target = max(1, len(lines) // nchunks)
+    chunks, cur_start = [], 0
+    for s in starts[1:] + [len(lines)]:
+        if s - cur_start >= target or s == len(lines):
+            if s > cur_start:
+                chunks.append((cur_start, s))
+                cur_start = s
+    out = []
+    for k, (a, b) in enumerate(chunks):
+        fn = "%s.part%d" % (path, k)
+        write_lines(fn, lines[a:b])
+        out.append((fn, a))
+    return out, lines
+
+
+def validate_trace_parallel(module, cfg, path, nchunks=12, boundary='"ev":"begin"', timeout=1800, xmx="3g", tag="tv"):
+    """Validates a trace in parallel chunks. Returns (results, lines) where results is a list of
+    (accepted, global_line_index_or_None, TlcResult)."""
+    import concurrent.futures as cf
+    chunks, lines = split_trace(path, nchunks, lambda l: boundary in l[:60])
+
+    def val(c):
+        fn, off = c
+        ok, un, res = validate_trace(module, cfg, fn, timeout=timeout, xmx=xmx, tag="%s%d" % (tag, off))
+        return ok, (off + un if un else None), res
+    with cf.ThreadPoolExecutor(max_workers=min(len(chunks), 14)) as ex:
+        results = list(ex.map(val, chunks))
+    for fn, _ in chunks:
+        try:
+            os.remove(fn)
+        except OSError:
+            pass
+    return results, lines
